@@ -210,6 +210,11 @@ def run_case(ck: Check, case: dict):
         if fingerprint(cur) != fp_before or fingerprint(origin) != fp_origin:
             ck.violation(f"C14/mutation/{op[0]}", f"operation {op[0]} changed the definition / central state / encoding / hashing seen by later operations", rep)
             return
+        if op[0] == "beam" and not seeded and not cur.hasher.is_identity and op[2] < 10**5:
+            # a pruned beam on an unseeded graph keeps different rows in the two objects (hash order): one may find the
+            # target (and then need inverse generators to restore the path) while the other does not — not comparable
+            ck.count("pruned beam on an unseeded graph: not comparable")
+            continue
         if st != st2:
             ck.violation(f"C14/history-dependence/{op[0]}/error", f"operation {op[0]} behaves differently after the history than on a fresh graph: {str(out)[:150]} vs {str(out2)[:150]}", rep)
             return
